@@ -3,6 +3,7 @@ package checks
 import (
 	"crypto/ed25519"
 	"encoding/json"
+	"errors"
 	"fmt"
 	"os"
 	"sort"
@@ -121,6 +122,7 @@ func freshSnapshot(lab *Lab) world.Snapshot {
 func junkify(rec *world.Recording, L []storage.Message, foreignReinit bool) []storage.Message {
 	var out []storage.Message
 	forgedPatches := false
+	forgedLate := false
 	for i, m := range L {
 		out = append(out, m)
 		if !foreignReinit && m.Event == "event_dkg_commit_confirm_received" && !forgedPatches && i+1 < len(L) && L[i+1].Event == "event_dkg_deal_confirm_received" {
@@ -137,6 +139,18 @@ func junkify(rec *world.Recording, L []storage.Message, foreignReinit bool) []st
 			// years ahead
 			sc0 := requests.DKGProposalDealConfirmationRequest{ParticipantId: 0, Deal: []byte("self-confirm"), CreatedAt: world.T0.AddDate(10, 0, 0)}
 			out = append(out, storage.Message{DkgRoundID: rec.Round, Event: "event_dkg_deal_confirm_received", Data: world.MustJSON(sc0), SenderAddr: n0, RecipientAddr: n0})
+		}
+		if !foreignReinit && m.Event == "event_dkg_response_confirm_received" && !forgedLate {
+			// (C20's dump) after the deals phase: one more look-alike of participant 0's
+			// self-confirmation - the replay refuses it, the phase is over - followed by an unsigned
+			// failure report in participant 1's name; whatever the replay switches for the first
+			// must be back in place for the second
+			forgedLate = true
+			n0 := rec.W.Nodes[0].Name
+			sc0 := requests.DKGProposalDealConfirmationRequest{ParticipantId: 0, Deal: []byte("self-confirm"), CreatedAt: world.T0}
+			out = append(out, storage.Message{DkgRoundID: rec.Round, Event: "event_dkg_deal_confirm_received", Data: world.MustJSON(sc0), SenderAddr: n0, RecipientAddr: n0})
+			er := requests.DKGProposalConfirmationErrorRequest{ParticipantId: 1, Error: requests.NewFSMError(errors.New("forged")), CreatedAt: world.T0}
+			out = append(out, storage.Message{DkgRoundID: rec.Round, Event: "event_dkg_response_confirm_canceled_by_error", Data: world.MustJSON(er), SenderAddr: rec.W.Nodes[1].Name})
 		}
 		if !foreignReinit && i == 1 {
 			// (C20's dump) a forged decline in the last participant's name, signed with another
